@@ -135,6 +135,15 @@ class Forall:
         return B(self.body(*ts))
 
 
+class PairForall(Forall):
+    """forall a, b over the argument tuples with which ONE unary trigger function occurs in the query
+    (instantiated for every ordered pair of occurrences).  Used for lemmas such as global monotonicity."""
+
+    def __init__(self, decl, body, name=""):
+        Forall.__init__(self, body, nvars=2, triggers=[decl], name=name)
+        self.pair = True
+
+
 class Obligation:
     def __init__(self, oid, kind, goal, path, schemas, lineno=None, note="", extra_terms=()):
         self.oid, self.kind, self.goal = oid, kind, goal
@@ -300,6 +309,7 @@ class Ctx:
         self.feas_solver_timeout = 2000
         self.trace = []
         self.ghost = {}
+        self.index_terms = []     # integer terms at which trigger-less hypotheses are instantiated
 
     # ---- names -------------------------------------------------------------------
     def fresh_int(self, base="v"):
